@@ -48,6 +48,19 @@ NP_KERNELS = [
     ]),
     ('msm/tests.py', 'MsmTests', None, [
         ('_calc_times', dict(params=['Int', 'Int'], ret='L[Int]')),
+        # the object is given by `nstates`, `states`; its estimator (`trajs.estimate_markov_model`, for a lumped object the Hummer–Szabo model) is an oracle
+        ('_chapman_kolmogorov_test', dict(
+            ret='T[L[T[Int,L[Rat]]],L[Int],Bool,Bool]', param_names=['trajs_nstates', 'trajs_states', 'lagtime', 'tmax'],
+            params=['Int', 'L[Int]', 'Int', 'Int'], objects={'trajs': {'attrs': {'nstates': 'Int', 'states': 'L[Int]'}}},
+            externals={'trajs.estimate_markov_model': ('ext_estimate', ['Int'], 'T[L[L[Rat]],L[Int]]', ['lagtime'])})),
+        # reference curve: the rounded geometric time grid is an oracle, the estimator is the PLAIN (macro-level) one
+        ('_chapman_kolmogorov_test_md', dict(
+            ret='T[L[T[Int,L[Rat]]],L[Int],L[Bool],L[Bool]]', param_names=['trajs_nstates', 'trajs_states', 'tmin', 'tmax', 'steps'],
+            params=['Int', 'L[Int]', 'Int', 'Int', 'Int'], objects={'trajs': {'attrs': {'nstates': 'Int', 'states': 'L[Int]'}}},
+            rewrite_stmts={'times = np.around(np.geomspace(start=tmin, stop=tmax, num=steps)).astype(np.int64)': 'times = ext_geomspace_rounded(tmin, tmax, steps)',
+                           'if isinstance(trajs, LumpedStateTraj):\n    macrotrajs = StateTraj(trajs.trajs)\nelse:\n    macrotrajs = trajs': 'pass'},
+            externals={'macrotrajs.estimate_markov_model': ('ext_estimate_plain', ['Int'], 'T[L[L[Rat]],L[Int]]', ['lagtime']),
+                       'ext_geomspace_rounded': ('ext_geomspace_rounded', ['Int', 'Int', 'Int'], 'L[Int]')})),
     ]),
     ('msm/timescales.py', 'MsmCummat', None, [
         ('_get_cummat', dict(
@@ -214,6 +227,8 @@ NP_KERNELS = [
 # calls of translated functions of OTHER modules: dotted python name -> (namespace, function)
 XREF = {
     'mh.utils.unique': ('UtilsRelabel', 'unique'),
+    'utils.tests.is_ergodic': ('UtilsTests', 'is_ergodic'),
+    'utils.tests.is_fuzzy_ergodic': ('UtilsTests', 'is_fuzzy_ergodic'),
     'mh.shift_data': ('UtilsRelabel', 'shift_data'),
     'mh.utils.rename_by_index': ('UtilsRelabel', 'rename_by_index'),
     'mh.utils.format_state_traj': None,
@@ -323,6 +338,7 @@ class _Prep(ast.NodeTransformer):
         self.super_init = sig.get('super_init')            # `super().__init__(x)` sets these attributes (result of the translated base constructor)
         self.selfcalls = set(sig.get('selfcalls', []))       # self.<prop> evaluated by calling the translated property of the same class
         self.kwargs_consts = sig.get('kwargs_consts')      # `**kwargs` at a call site replaced by these keyword constants
+        self.rewrite = sig.get('rewrite_stmts', {})          # source text of a statement -> replacement statement (e.g. an expression turned into an oracle call)
         self.drop = set(sig.get('drop_stmts', []))           # source text of statements that are dropped (e.g. the dtype bookkeeping)
         self.not_none = set(sig.get('not_none', []))
         self.objects = sig.get('objects', {})
@@ -337,12 +353,16 @@ class _Prep(ast.NodeTransformer):
                 txt = None
             if txt in self.facts:
                 return ast.copy_location(ast.Constant(value=self.facts[txt]), node)
-        if isinstance(node, ast.stmt) and self.drop:
+        if isinstance(node, ast.stmt) and (self.drop or self.rewrite):
             try:
-                if ast.unparse(node) in self.drop:
-                    return None
+                txt = ast.unparse(node)
             except Exception:  # noqa
-                pass
+                txt = None
+            if txt in self.drop:
+                return None
+            if txt in self.rewrite:
+                new = ast.parse(self.rewrite[txt]).body
+                return [super(_Prep, self).visit(n) for n in new]
         return super().visit(node)
 
     def visit_Assign(self, node):
@@ -447,7 +467,7 @@ class _Prep(ast.NodeTransformer):
 def prepare(node, sig):
     """returns a FunctionDef whose positional parameters are exactly sig['param_names'] (when given)"""
     if not any(k in sig for k in ('objects', 'consts', 'flags', 'param_names', 'not_none', 'facts', 'self_locals', 'self_props', 'kwargs_consts',
-                                  'drop_stmts', 'returns_self', 'selfcalls', 'super_init')):
+                                  'drop_stmts', 'returns_self', 'selfcalls', 'super_init', 'rewrite_stmts')):
         return node
     import copy
     node = copy.deepcopy(node)          # the same source function may be prepared several times (specialisations)
@@ -532,6 +552,7 @@ class NpFn(Fn):
         for n in ast.walk(node):
             if isinstance(n, ast.Name) and n.id in ('x_', 'y_', 'r_'):
                 raise Unsupported('%s: variable name %s is reserved by the translator' % (node.name, n.id))
+        self.loop_depth, self.inner_decl = 0, []
         self.scope_outer, self.fresh_in_scope = set(), set()
         self.declared_np = {}     # name -> type, variables declared so far (sequential emission)
         self.rename, self.version = {}, {}
@@ -1171,7 +1192,7 @@ class NpFn(Fn):
                 if t == 'Rat':
                     return pre, '(pyIntTrunc %s)' % c, 'Int'
                 raise Unsupported('int() of %s' % (t,))
-            if name in ('_utils.matrix_power', 'np.linalg.matrix_power'):
+            if name in ('_utils.matrix_power', 'np.linalg.matrix_power', 'utils.matrix_power'):
                 c, t = sub(args[0])
                 k, tk = sub(args[1])
                 R = ('L', ('L', 'Rat'))
@@ -1231,6 +1252,15 @@ class NpFn(Fn):
                     cs.append('self_' + a_.lstrip('_'))
                 c, t = eff('MsmVerif.Gen.%s.%s %s' % (callee.ns, callee.lname_def(), ' '.join(cs)), callee.ret)
                 return pre, c, t
+            if name == 'np.diagonal' and len(args) == 1:
+                c, t = sub(args[0])
+                if not is_mat(t):
+                    raise Unsupported('%s: np.diagonal of %s' % (self.name, t))
+                return pre, '(npDiagonal %s)' % c, t[1]
+            if name in ('np.empty', 'np.zeros') and len(args) == 1 and isinstance(kw.get('dtype'), ast.Name) and kw['dtype'].id == 'bool' \
+                    and not isinstance(args[0], ast.Tuple):
+                a, _ = sub(args[0])
+                return pre, '(pyFull1 %s false)' % a, ('L', 'Bool')
             if name == 'np.concatenate' and len(args) == 1:
                 c, t = sub(args[0])
                 if not is_mat(t):
@@ -1279,6 +1309,24 @@ class NpFn(Fn):
                         self.used_ext.append(x)
                 c, t = eff('%s%s %s' % (head, ext, ' '.join(cs)), callee.ret)
                 return pre, c, t
+        if isinstance(e, ast.Dict) and e.keys and all(isinstance(k_, ast.Constant) and isinstance(k_.value, str) for k_ in e.keys):
+            cs = [sub(v_) for v_ in e.values]
+            return pre, '(%s)' % ', '.join(c for c, _ in cs), ('T',) + tuple(t for _, t in cs)
+        if isinstance(e, ast.DictComp) and len(e.generators) == 1 and not e.generators[0].ifs:
+            g = e.generators[0]
+            it, tit = sub(g.iter)
+            if not (isinstance(tit, tuple) and tit[0] == 'L'):
+                raise Unsupported('dict comprehension over %s' % (tit,))
+            saved = dict(self.env)
+            pat = self.pattern(g.target, tit[1])
+            pk, ck, tk = self.ex(e.key, dry=dry)
+            pv, cv, tv = self.ex(e.value, dry=dry)
+            self.env = saved
+            if tk != 'Int':
+                raise Unsupported('%s: dict comprehension key of type %s' % (self.name, tk))
+            t = self.fresh() if not dry else 't'
+            pre.append('let %s ← (%s).mapM (fun %s => do %s)' % (t, it, pat, '; '.join(pk + pv + ['pure (%s, %s)' % (ck, cv)])))
+            return pre, t, ('L', ('T', 'Int', tv))
         if isinstance(e, ast.ListComp) and len(e.generators) == 1 and not e.generators[0].ifs:
             g = e.generators[0]
             it, tit = sub(g.iter)
@@ -1410,7 +1458,11 @@ class NpFn(Fn):
             return [sp + 'let mut %s : %s := %s' % (self.lname(name), lean_type(typ), code)]
         if old is None or (old != typ and self.depth == 0):
             if self.depth != 0 and old is None:
-                raise Unsupported('%s: %s is first assigned inside a branch or loop — add a `locals` hint' % (self.name, name))
+                if not self.loop_depth:
+                    raise Unsupported('%s: %s is first assigned inside a branch — add a `locals` hint' % (self.name, name))
+                # first assigned inside a loop body: a local of that body (dropped again when the loop ends, so that a later
+                # use — legal in Python — is reported as unsupported instead of being mistranslated)
+                self.inner_decl[-1].append(name)
             if old is not None:
                 # re-bound with another type: Lean's `let mut` cannot be shadowed, so the variable gets a new Lean name
                 self.version[name] = self.version.get(name, 1) + 1
@@ -1491,6 +1543,12 @@ class NpFn(Fn):
                     full0 = isinstance(i0, ast.Slice) and i0.lower is None and i0.upper is None and i0.step is None
                     if full0 and not isinstance(i1, ast.Slice):
                         pj, cj, tj = self.ex(i1)
+                        if tj == 'Int' and is_vec(self.typeof(s.value)):
+                            emit_pre(pj)
+                            pv, cv, tv = self.ex(s.value)
+                            emit_pre(pv)
+                            out.append(sp + '%s ← npSetColVec %s %s %s' % (arr, arr, cj, self.coerce(cv, tv, ta[1])))
+                            return out
                         if tj == 'Int':
                             emit_pre(pj)
                             pv, cv, tv = self.ex(s.value, want=elem(ta))
@@ -1553,7 +1611,19 @@ class NpFn(Fn):
         if isinstance(s, ast.If) and self.typeof(s.test) == 'Int':
             # truthiness of an integer
             s = ast.If(test=ast.Compare(left=s.test, ops=[ast.NotEq()], comparators=[ast.Constant(value=0)]), body=s.body, orelse=s.orelse)
-        if isinstance(s, (ast.If, ast.For)):
+        if isinstance(s, ast.For):
+            self.depth += 1
+            self.loop_depth += 1
+            self.inner_decl.append([])
+            try:
+                return Fn.stmt(self, s, ind)
+            finally:
+                self.depth -= 1
+                self.loop_depth -= 1
+                for n_ in self.inner_decl.pop():
+                    self.declared_np.pop(n_, None)
+                    self.env.pop(n_, None)
+        if isinstance(s, ast.If):
             self.depth += 1
             try:
                 return Fn.stmt(self, s, ind)
@@ -1723,6 +1793,9 @@ def run_module(ns, relfile, emitted, ext_impl):
 EXT_IMPL = {'ext_peq': 'MsmVerif.GenCodec.oracleVec "peq"', 'ext_argsort': 'MsmVerif.GenCodec.oracleTable "argsort"',
             'ext_left_eigenvectors': 'MsmVerif.GenCodec.oracleEig "eig"',
             'ext_choice': 'MsmVerif.GenCodec.oracleConst "choice"',
+            'ext_estimate': 'MsmVerif.GenCodec.oracleTableInt "estimate"',
+            'ext_estimate_plain': 'MsmVerif.GenCodec.oracleTableInt "estimate"',
+            'ext_geomspace_rounded': 'MsmVerif.GenCodec.oracleConst3 "times"',
             'ext_argsort_int': 'MsmVerif.GenCodec.oracleConst "argsort"',
             'ext_propagate': 'MsmVerif.GenCodec.oracleConst3 "propagate"',
             'ext_opentxt': 'MsmVerif.GenCodec.oracleConst "opentxt"',
